@@ -11,9 +11,10 @@
    where (C02_views) these two parts contain no newline and are delimited by
    newlines / the ends of the text. *)
 From Coq Require Import ZArith List Bool Sorted.
-From PTK Require Import Lib.Sx Lib.Py Gen.Whitespace Gen.C02_Patterns Model.Document Model.C02_DocQueries
+From PTK Require Import Lib.Sx Lib.Py Gen.Whitespace Gen.C02_Patterns Gen.C02_CaseFold Model.Document Model.C02_DocQueries
+  Model.C02_Cache Model.C02_Run Proofs.C02_Cache Proofs.C02_CaseFold
   Proofs.C02_Base Proofs.C02_Coords Proofs.C02_Lines Proofs.C02_Find Proofs.C02_Brackets
-  Proofs.C02_Words Proofs.C02_WordsExact Proofs.C02_FindExact Proofs.C02_Paragraphs
+  Proofs.C02_Words Proofs.C02_WordsExact Proofs.C02_WordsExactEnd Proofs.C02_FindExact Proofs.C02_Paragraphs
   Proofs.C02_LastNonBlank Proofs.C02_Boundaries Proofs.C02_Patterns.
 Import ListNotations.
 Open Scope Z_scope.
@@ -390,6 +391,17 @@ Theorem C02_find_exact : forall ceq d sub il ic count l,
 Proof. exact find_exact. Qed.
 Print Assumptions C02_find_exact.
 
+(* the same in whole-text coordinates, also for in_current_line: the answers
+   are the greedy occurrences k in the TEXT with lo <= k and k + len sub <= hi,
+   lo = cursor (+1 unless include_current_position), hi = end of the current
+   line (in_current_line) or of the text; no special case is left *)
+Theorem C02_find_exact_text : forall ceq d sub (il ic : bool) count l,
+  valid d ->
+  greedy (fun k => occ ceq sub (dtext d) k /\ k + len sub <= find_hi d il) (fstep sub) (find_lo d ic) l ->
+  dfind ceq d sub il ic count = option_map (fun k => k - dcur d) (nth_match l count).
+Proof. exact find_exact_text. Qed.
+Print Assumptions C02_find_exact_text.
+
 (* the text before the cursor is scanned mirrored: occurrences are taken
    greedily from the right (occ_rev: an occurrence of the mirrored needle at p in
    the mirrored text is an occurrence at len - p - len sub) *)
@@ -620,14 +632,26 @@ Proof.
 Qed.
 Print Assumptions C02_previous_word_beginning_exact.
 
-(* the count-th word end at or before the cursor, counting backwards - when the
-   cursor is not at the end of the text (known finding C02-F2 otherwise) *)
-Theorem C02_previous_word_ending_exact_partial : forall d count WORD,
-  valid d -> 1 <= count -> dcur d < len (dtext d) ->
-  forall l, enumerates (fun j => j <= dcur d /\ word_end (word_cls WORD) (dtext d) j) l ->
-    find_previous_word_ending d count WORD = option_map (fun j => j - dcur d) (pick (rev l) count).
-Proof. exact C02x_previous_word_ending_exact_partial. Qed.
-Print Assumptions C02_previous_word_ending_exact_partial.
+(* find_previous_word_ending, for EVERY valid cursor, the code as it is: with
+   off = 1 when the cursor is at the end of the text (known finding C02-F2) and
+   0 otherwise, the answer is the count-th word end j <= cursor - off, counting
+   backwards, reported as j + off - cursor; None iff there are fewer.  So at
+   the end of the text a word ending exactly at the cursor is never reported
+   and every reported target is one past a word end. *)
+Theorem C02_previous_word_ending_exact : forall d count WORD,
+  valid d -> 1 <= count ->
+  let off := if dcur d =? len (dtext d) then 1 else 0 in
+  forall l, enumerates (fun j => j <= dcur d - off /\ word_end (word_cls WORD) (dtext d) j) l ->
+    find_previous_word_ending d count WORD = option_map (fun j => j + off - dcur d) (pick (rev l) count).
+Proof. exact C02x_previous_word_ending_exact. Qed.
+Print Assumptions C02_previous_word_ending_exact.
+
+Theorem C02_previous_word_ending_at_end_off_by_one : forall d count WORD r,
+  valid d -> 1 <= count -> dcur d = len (dtext d) ->
+  find_previous_word_ending d count WORD = Some r ->
+  word_end (word_cls WORD) (dtext d) (dcur d + r - 1) /\ dcur d + r - 1 < dcur d.
+Proof. exact C02x_previous_word_ending_at_end_off_by_one. Qed.
+Print Assumptions C02_previous_word_ending_at_end_off_by_one.
 
 Theorem C02_enumeration_unique : forall P l1 l2, enumerates P l1 -> enumerates P l2 -> l1 = l2.
 Proof. exact enumerates_unique. Qed.
@@ -698,6 +722,39 @@ Example C02_word_motion_defined :
   find_next_word_beginning (mkdoc [97; 98; 32; 99] 0) 1 false = Some 3.
 Proof. vm_compute. reflexivity. Qed.
 Print Assumptions C02_word_motion_defined.
+
+(* ====================================================================== *)
+(* 5b. The shared line cache (Model/C02_Cache.v: a memo table keyed by the text)
+   is transparent: from the empty table, in every sequence of document
+   creations, lines / line-start-table queries and evictions of any texts, every
+   query answers exactly as the cache-free function; the invariant "what is
+   stored for a text is what the text determines" is preserved by every step. *)
+Theorem C02_cache_transparent : forall ops, fst (crun [] ops) = map cspec ops.
+Proof. exact cache_transparent. Qed.
+Print Assumptions C02_cache_transparent.
+
+Theorem C02_cache_step : forall c o,
+  cache_ok c -> fst (cstep c o) = cspec o /\ cache_ok (snd (cstep c o)).
+Proof. exact cstep_correct. Qed.
+Print Assumptions C02_cache_step.
+
+Theorem C02_cached_queries : forall c t, cache_ok c ->
+  fst (cached_lines c t) = lines (mkdoc t 0) /\
+  fst (cached_indexes c t) = line_start_indexes (mkdoc t 0) /\
+  ce_lines (centry_of (snd (cached_lines (cnew c t) t)) t) = Some (lines (mkdoc t 0)).
+Proof.
+  intros c t Hc. split; [apply (cached_lines_correct c t Hc)|].
+  split; [apply (cached_indexes_correct c t Hc)|now apply lines_are_cached].
+Qed.
+Print Assumptions C02_cached_queries.
+
+(* the regenerated re.IGNORECASE relation used by run_C02 is symmetric and
+   relates only characters of its alphabet (re-proved per run over the table) *)
+Theorem C02_fold_table : forall a b,
+  mem_pair a b c02_fold_pairs = true ->
+  mem_pair b a c02_fold_pairs = true /\ mem_Z a c02_fold_alphabet = true /\ mem_Z b c02_fold_alphabet = true /\ a <> b.
+Proof. exact fold_table_facts. Qed.
+Print Assumptions C02_fold_table.
 
 (* ====================================================================== *)
 (* 6. Tie of the scanners to /repo's regex pattern strings (regenerated) *)
